@@ -540,7 +540,7 @@ pub fn run_request(line: &str, out: &mut Out, hist: &mut Hist) {
 pub fn vprogram(seed: u64, k: u64) -> String {
     let mut rng = Rng::new(seed.wrapping_mul(0x2545_F491_4F6C_DD1D) ^ k.wrapping_mul(0x9E37_79B9_7F4A_7C15) ^ 0x6d766563);
     if k >= DUP_BASE {
-        return vgend::dup_program(&mut rng).0;
+        return vgend::dup_program(k - DUP_BASE, &mut rng).0;
     }
     if k % 5 == 4 {
         return vgenm::program(&mut rng);
@@ -557,12 +557,12 @@ pub const DUP_BASE: u64 = 1_000_000;
 
 pub fn run_stream(args: &Args, out: &mut Out, hist: &mut Hist) {
     let n = if args.thorough() { 4000 } else { 300 };
-    let nd = if args.thorough() { 1500 } else { 150 };
+    let nd = vgend::enumerated_len() + if args.thorough() { 1500 } else { 100 };
     for k in (0..n).chain(DUP_BASE..DUP_BASE + nd) {
         let src = vprogram(args.seed, k);
         if k >= DUP_BASE {
             let mut trng = Rng::new(args.seed.wrapping_mul(0x2545_F491_4F6C_DD1D) ^ k.wrapping_mul(0x9E37_79B9_7F4A_7C15) ^ 0x6d766563);
-            hist.add(&vgend::dup_program(&mut trng).1);
+            hist.add(&vgend::dup_program(k - DUP_BASE, &mut trng).1);
         }
         let mut arng = Rng::new(args.seed ^ (k.wrapping_mul(0x9E37_79B9_7F4A_7C15)) ^ 0x5eed);
         let mut local = Hist::default();
